@@ -272,6 +272,18 @@ fmt_matrix!(
 );
 
 
+/// Power-of-two radixes only (long vectors: bva's decimal conversion is quadratic in the length).
+pub fn fmt_nodec<T: Display + Binary + Octal + LowerHex + UpperHex>(v: &T) -> Vec<String> {
+    vec![
+        format!("{:b}", v),
+        format!("{:#o}", v),
+        format!("{:x}", v),
+        format!("{:#X}", v),
+        format!("{:+#010b}", v),
+        format!("{:^20o}", v),
+    ]
+}
+
 /// Only the five plain specs (used by the lite battery).
 pub fn fmt_lite<T: Display + Binary + Octal + LowerHex + UpperHex>(v: &T) -> Vec<String> {
     vec![
